@@ -28,6 +28,11 @@ type ParserData struct {
 		textPos    int
 		openBlocks []CodeType
 	}
+	// 最外层代码中每条指令写入时解析器所处的文本位置(与 code 下标对应)。解析结束后，
+	// 位置超出最终匹配位置的尾部指令来自被放弃的备选分支，需要丢弃，见 dropAbandonedTail
+	codeOffsets []int
+	curPt       *savepoint
+
 	// 当前代码体内已 push 尚未 pop 的语句块(block / fstr.block)，break 与 continue 跳转前需要先将循环体内的这些块闭合
 	openBlocks []CodeType
 }
@@ -101,7 +106,28 @@ func (e *ParserData) WriteCode(T CodeType, value any) {
 	c := &e.code[e.codeIndex]
 	c.T = T
 	c.Value = value
+	if e.curPt != nil && len(e.codeStack) == 0 && len(e.codeOffsets) >= e.codeIndex {
+		e.codeOffsets = append(e.codeOffsets[:e.codeIndex], e.curPt.offset)
+	}
 	e.codeIndex += 1
+}
+
+// dropAbandonedTail 去掉 halt 之前、在最终匹配位置之后才写入的指令：
+// 这些指令是解析器尝试了输入尾部(最终归入 RestInput 的文本)后又放弃的分支留下的，不属于被匹配的程序。
+func (e *ParserData) dropAbandonedTail(finalOffset int) {
+	n := e.codeIndex
+	if n == 0 || len(e.codeOffsets) < n {
+		return
+	}
+	end := n - 1 // halt
+	k := end
+	for k > 0 && e.codeOffsets[k-1] > finalOffset {
+		k--
+	}
+	if k < end {
+		e.code[k] = e.code[end]
+		e.codeIndex = k + 1
+	}
 }
 
 func (p *ParserData) AddDiceDetail(begin IntType, end IntType) {
